@@ -139,7 +139,7 @@ def gen_text(g, knob, classes):
 
 
 def total_runs(tier):
-    return 7000 if tier == 'quick' else 200000
+    return 5600 if tier == 'quick' else 200000
 
 
 def make_plan(i, master, tier):
